@@ -181,23 +181,40 @@ impl Eval for Cmp {
             CmpOp::Eq => cmp_dispatch(&PartialEq::eq, &context.resolve(&self.path), &self.value),
             CmpOp::NotEq => cmp_dispatch(&PartialEq::ne, &context.resolve(&self.path), &self.value),
             CmpOp::LessThan => {
-                cmp_dispatch(&PartialOrd::lt, &context.resolve(&self.path), &self.value)
+                cmp_dispatch(&ordered(&PartialOrd::lt), &context.resolve(&self.path), &self.value)
             }
             CmpOp::LessThanEq => {
-                cmp_dispatch(&PartialOrd::le, &context.resolve(&self.path), &self.value)
+                cmp_dispatch(&ordered(&PartialOrd::le), &context.resolve(&self.path), &self.value)
             }
             CmpOp::GreatThan => {
-                cmp_dispatch(&PartialOrd::gt, &context.resolve(&self.path), &self.value)
+                cmp_dispatch(&ordered(&PartialOrd::gt), &context.resolve(&self.path), &self.value)
             }
             CmpOp::GreatThanEq => {
-                cmp_dispatch(&PartialOrd::ge, &context.resolve(&self.path), &self.value)
+                cmp_dispatch(&ordered(&PartialOrd::ge), &context.resolve(&self.path), &self.value)
             }
         }
     }
 }
 
+/// Ordering is defined only between values of the same kind,
+/// and for numbers only if they have the same unit.
+fn ordered<'a, Cmp: Fn(&Value, &Value) -> bool>(
+    cmp: &'a Cmp,
+) -> impl Fn(&Value, &Value) -> bool + 'a {
+    move |lhs, rhs| {
+        let comparable = match (lhs, rhs) {
+            (Value::Number(lhs), Value::Number(rhs)) => lhs.unit == rhs.unit,
+            _ => std::mem::discriminant(lhs) == std::mem::discriminant(rhs),
+        };
+        comparable && cmp(lhs, rhs)
+    }
+}
+
 fn cmp_dispatch<Cmp: Fn(&Value, &Value) -> bool>(cmp: &Cmp, lhs: &Value, rhs: &Value) -> bool {
     match lhs {
+        // The path doesn't resolve to a value, there is nothing to compare
+        Value::Null => false,
+
         Value::List(list) => {
             if !rhs.is_list() {
                 list.iter().any(|el| cmp_dispatch(cmp, el, rhs))
